@@ -9,7 +9,7 @@ from ..core import Checker, Rule, attr_calls, callee_is, calls_in, kwarg, resolv
 from ..grammar import schema
 from ..interp import Pins, find_nodes, unparse
 from ..kindflow import Collect, fmt_path, required_paths
-from .util import covers_program, enclosing_loop, enclosing_stmt, every_iteration_reaches, fmt, is_const, parent, returns_of, single_def
+from .util import contributions, covers_program, enclosing_loop, enclosing_stmt, every_iteration_reaches, fmt, is_const, parent, returns_of, single_def
 
 P = ("C18", "C01")
 U = "ngo.utils.ast"
@@ -98,14 +98,15 @@ def r_detect_input(ck: Checker) -> None:
     func = ck.func("utils.globals:auto_detect_input")
     it = ck.interp(func)
     prg = func.params()[0]
-    allp = [c for c in attr_calls(func, "update") if unparse(c.func.value) == "all_preds"]  # type: ignore[attr-defined]
-    ck.need(len(allp) == 1, "all predicates are collected at one site")
-    txt = unparse(allp[0].args[0]).replace(" ", "")
-    m = re.fullmatch(r"\[(\w+)\.predfor\1inpredicates\((\w+)\)\]", txt)
-    ck.add("all predicates = predicates(stm) for every statement", m is not None, func, allp[0], f"`{txt}`", "")
+    contrib = contributions(func, "all_preds")
+    ck.need(len(contrib) == 1, "all predicates are collected at one site")
+    site0, txt = contrib[0]
+    m = re.fullmatch(r"\[(\w+)\.pred for \1 in predicates\((\w+)\)\]", txt)
+    ck.add("all predicates = predicates(stm) for every statement", m is not None, func, site0, f"`{txt}`", "")
     stm = m.group(2) if m else "stm"
-    okk, n = every_iteration_reaches(ck, func, enclosing_loop(func, allp[0]), allp[0], None)  # type: ignore[arg-type]
-    lp = enclosing_loop(func, allp[0])
+    allp = [site0]
+    lp = enclosing_loop(func, site0)
+    okk, n = every_iteration_reaches(ck, func, lp, site0, None)  # type: ignore[arg-type]
     ck.add("... over the whole program", okk and n > 0 and lp is not None and covers_program(lp.iter, prg), func, allp[0], f"loop `{unparse(lp.iter) if lp is not None else None}` unconditional: {okk}", "")
     der = [c for c in attr_calls(func, "add") if unparse(c.func.value) == "derivable_preds"]  # type: ignore[attr-defined]
     ck.need(len(der) == 1, "derivable predicates collected at one site")
@@ -147,19 +148,25 @@ def r_detect_output(ck: Checker) -> None:
     it_sig = ck.interp(func, Pins.of(vals={f"{stm}.ast_type": "ASTType.ShowSignature"}))
     adds = [c for c in attr_calls(func, "add") if unparse(c.func.value) == "output"]  # type: ignore[attr-defined]
     upd = [c for c in attr_calls(func, "update") if unparse(c.func.value) == "output"]  # type: ignore[attr-defined]
-    ok = len(adds) == 1 and it_sig.reachable(adds[0]) and unparse(adds[0].args[0]).replace(" ", "") == f"Predicate({stm}.name,{stm}.arity)"
-    ck.add("#show p/n. contributes p/n", ok, func, adds[0] if adds else func.node, f"`{fmt(adds[0]) if adds else None}`", "")
+    sig_adds = [c for c in adds if it_sig.reachable(c)]
+    ok = len(sig_adds) == 1 and unparse(sig_adds[0].args[0]).replace(" ", "") == f"Predicate({stm}.name,{stm}.arity)"
+    ck.add("#show p/n. contributes p/n", ok, func, sig_adds[0] if sig_adds else func.node, f"`{fmt(sig_adds[0]) if sig_adds else None}`", "")
+    adds_all = adds
+    adds = sig_adds
     if adds:
         itb = ck.interp(func)
         okn = itb.holds(adds[0], f"{stm}.name != ''") or itb.holds(adds[0], f"{stm}.name")
         ck.add("`#show.` contributes nothing", okn, func, adds[0], f"signature registration guarded by a non-empty name: {okn}", "`#show.` is parsed as a signature with empty name: the pseudo predicate `/0` is not a shown predicate", rule="C18.show-nothing")
     it_t = ck.interp(func, Pins.of(vals={f"{stm}.ast_type": "ASTType.ShowTerm"}))
-    reach = [c for c in upd if it_t.reachable(c)]
+    reach = [c for c in upd + adds_all if it_t.reachable(c)]
     ck.need(len(reach) == 1, "#show terms contribute through one update site")
     c = reach[0]
-    comp = c.args[0]
+    inner = enclosing_loop(func, c)
+    comp = c.args[0] if c.func.attr == "update" else (inner.iter if inner is not None else c.args[0])  # type: ignore[attr-defined]
     call = [n for n in ast.walk(comp) if isinstance(n, ast.Call) and (ck.prg.resolve_callee(func, n.func) or "").startswith(U + ":")]
     ck.need(len(call) == 1, "a collector of utils.ast is applied to each condition literal")
+    if c.func.attr == "add" and inner is not None:  # type: ignore[attr-defined]
+        ck.add("every predicate the collector yields is registered", unparse(c.args[0]) == f"{unparse(inner.target)}.pred" and every_iteration_reaches(ck, func, inner, c, None)[0], func, c, f"`{fmt(c)}` for every element of `{unparse(inner.iter)}`", "")
     callee = ck.prg.resolve_callee(func, call[0].func)
     st = it_t.states(c)[0]
     lit = unparse(call[0].args[0])
@@ -176,7 +183,7 @@ def r_detect_output(ck: Checker) -> None:
                    "predicates in show-term conditions are outputs: a missed one is deleted or shrunk by unused")
     for kind in ("Rule", "Minimize", "External", "Definition"):
         itk = ck.interp(func, Pins.of(vals={f"{stm}.ast_type": f"ASTType.{kind}"}))
-        ck.add(f"{kind} statements contribute nothing", not any(itk.reachable(x) for x in adds + upd), func, loops[0], "no registration reachable", "exactly the shown predicates are outputs")
+        ck.add(f"{kind} statements contribute nothing", not any(itk.reachable(x) for x in adds_all + upd), func, loops[0], "no registration reachable", "exactly the shown predicates are outputs")
     rets = returns_of(func)
     ck.add("result is sorted", len(rets) == 1 and unparse(rets[0].value).replace(" ", "") in ("list(sorted(output))", "sorted(output)"), func, func.node, f"`{fmt(rets[0]) if rets else None}`", "C17")  # type: ignore[arg-type]
 
